@@ -27,6 +27,33 @@ use uuid::Uuid;
 
 static KEYS: Mutex<BTreeMap<(Vec<u8>, Vec<u8>), [u8; 32]>> = Mutex::new(BTreeMap::new());
 
+/// A gate that plays the part of a second client creating the bucket's salt at the worst
+/// moment: right before this client's compare-and-swap of "salt" (which then loses).
+struct SaltRaceGate {
+    objects: taskchampion::server::verif::Objects,
+    done: bool,
+}
+
+#[async_trait::async_trait]
+impl taskchampion::server::verif::Gate for SaltRaceGate {
+    async fn before(&mut self, op: &'static str, name: &str) -> taskchampion::server::verif::GateDecision {
+        if op == "cas" && name == "salt" && !self.done {
+            self.done = true;
+            self.objects.lock().unwrap().entry("salt".into()).or_insert((b"other-client-salt".to_vec(), crate::interpose::EPOCH0 as u64));
+        }
+        SimGate.before(op, name).await
+    }
+    fn after(&mut self, op: &'static str, name: &str, changed: bool) {
+        SimGate.after(op, name, changed)
+    }
+    fn now(&mut self) -> u64 {
+        SimGate.now()
+    }
+    fn arrange_listing(&mut self, names: &mut Vec<String>) -> usize {
+        SimGate.arrange_listing(names)
+    }
+}
+
 pub fn mseal_key(salt: &[u8], secret: &[u8]) -> [u8; 32] {
     if let Some(k) = KEYS.lock().unwrap().get(&(salt.to_vec(), secret.to_vec())) {
         return *k;
@@ -207,10 +234,20 @@ pub fn run_c13(scv: &Value, want_log: bool) -> RunResult {
     let rt = if b == 5 { Some(tokio::runtime::Builder::new_current_thread().enable_all().build().unwrap()) } else { None };
     let client_id = Uuid::from_u128(0xc11e_0000_0000_4000_8000_00000000000d);
     let git_dir = dir.join("repo");
+    let race_salt = b == 12 && sc.salt_kind == 0 && (sc.seed / 11) % 2 == 0;
+    let first_opened = std::cell::Cell::new(false);
+    if race_salt {
+        e.probe("salt_race", 1);
+    }
     let open = |objects: &taskchampion::server::verif::Objects| -> Result<Box<dyn Server>, String> {
         match b {
             2 => Ok(Box::new(VerifCloudServer::with_key(objects.clone(), Box::new(SimGate), crate::fam_b::shared_key()))),
-            12 => block_on(VerifCloudServer::new(objects.clone(), Box::new(SimGate), secret.clone())).map(|s| Box::new(s) as Box<dyn Server>).map_err(|e| e.to_string()),
+            12 => {
+                // in half of the runs that start from an empty bucket another client's salt
+                // lands between the first constructor's read of "salt" and its compare-and-swap
+                let gate: Box<dyn taskchampion::server::verif::Gate> = if race_salt && !first_opened.replace(true) { Box::new(SaltRaceGate { objects: objects.clone(), done: false }) } else { Box::new(SimGate) };
+                block_on(VerifCloudServer::new(objects.clone(), gate, secret.clone())).map(|s| Box::new(s) as Box<dyn Server>).map_err(|e| e.to_string())
+            }
             3 => block_on(ServerConfig::Git { local_path: git_dir.clone(), branch: "main".into(), remote: None, local_only: true, encryption_secret: secret.clone(), git_path: None }.into_server()).map_err(|e| e.to_string()),
             5 => block_on(ServerConfig::Remote { url: httpd.as_ref().unwrap().url(), client_id, encryption_secret: secret.clone() }.into_server()).map_err(|e| e.to_string()),
             _ => Err("unknown backend".into()),
